@@ -58,7 +58,11 @@ AclAppend(n, ace) ==
   /\ mode' = ""
   /\ UNCHANGED <<grp, bind, route>>
 
-(* no access-list N line K extended ... *)
+(* no access-list N line K extended ...                                      *)
+(* Removing the last entry of a list that an access-group names is latched   *)
+(* as an error AND takes effect the way the device does it: the list and the *)
+(* access-group commands naming it are gone (so C07 sees the damage).        *)
+RefGone == {"last entry of a referenced access-list deleted", "referenced access-list deleted"}
 AclDeleteG(n, pos, ace) ==
   CASE n \notin DOMAIN acl                                  -> "access-list does not exist"
     [] pos < 1 \/ pos > Len(acl[n])                         -> "line number does not address a position of the access-list"
@@ -68,11 +72,12 @@ AclDeleteG(n, pos, ace) ==
 AclDelete(n, pos, ace) ==
   LET g == AclDeleteG(n, pos, ace) IN
   /\ err' = Latch(g)
-  /\ acl' = IF g # "" THEN acl
+  /\ acl' = IF g \notin ({""} \cup RefGone) THEN acl
             ELSE IF Len(acl[n]) = 1 THEN Drop(acl, n)
             ELSE [acl EXCEPT ![n] = DelAt(@, pos)]
+  /\ bind' = IF g \in RefGone THEN {b \in bind : b.acl # n} ELSE bind
   /\ mode' = ""
-  /\ UNCHANGED <<grp, bind, route>>
+  /\ UNCHANGED <<grp, route>>
 
 (* clear configure access-list N *)
 AclClearG(n) ==
@@ -82,9 +87,10 @@ AclClearG(n) ==
 AclClear(n) ==
   LET g == AclClearG(n) IN
   /\ err' = Latch(g)
-  /\ acl' = IF g = "" THEN Drop(acl, n) ELSE acl
+  /\ acl' = IF g \in ({""} \cup RefGone) THEN Drop(acl, n) ELSE acl
+  /\ bind' = IF g \in RefGone THEN {b \in bind : b.acl # n} ELSE bind
   /\ mode' = ""
-  /\ UNCHANGED <<grp, bind, route>>
+  /\ UNCHANGED <<grp, route>>
 
 (* object-group network N : opens the sub-mode, creates the group if absent *)
 GrpEnterG(typ, n) ==
